@@ -240,6 +240,36 @@ def ver_cmp(ver1: str, rev1: str, ver2: str, rev2: str) -> int:
     return cmp(rev1, rev2)
 
 
+def ver_hash_key(ver: str | None, rev) -> tuple | None:
+    """Canonical, hashable key of a version and revision.
+
+    Two (version, revision) pairs have equal keys exactly when
+    :func:`ver_cmp` considers them equal, whatever their spelling
+    (1.0 vs 1.00, _alpha vs _alpha0, -r0 vs no revision).
+    """
+    if ver is None:
+        return None
+    parts = ver.split("_")
+    ver_parts = parts[0].split(".")
+    letter = ""
+    if ver_parts[-1][-1].isalpha():
+        letter = ver_parts[-1][-1]
+        ver_parts[-1] = ver_parts[-1][:-1]
+    # the first component is an integer; later ones are integers unless
+    # they begin with a "0", then strings with trailing zeros stripped.
+    key = [int(ver_parts[0])]
+    for v in ver_parts[1:]:
+        if v[0] == "0":
+            key.append(v.rstrip("0"))
+        else:
+            key.append(int(v))
+    suffixes = []
+    for suffix in parts[1:]:
+        match = suffix_regexp.match(suffix)
+        suffixes.append((match.group(1), int("0" + match.group(2))))
+    return (tuple(key), letter, tuple(suffixes), int(rev) if rev else 0)
+
+
 class CPV(base.base):
     """base ebuild package class
 
@@ -348,7 +378,10 @@ class CPV(base.base):
             sf(self, "package", "-".join(pkg_chunks))
 
     def __hash__(self):
-        return hash(self.cpvstr)
+        # must agree with __eq__, which compares versions via ver_cmp
+        return hash(
+            (self.category, self.package, ver_hash_key(self.version, self.revision))
+        )
 
     def __repr__(self):
         return f"<{self.__class__.__name__} cpvstr={getattr(self, 'cpvstr', None)} @{id(self):#8x}>"
